@@ -163,7 +163,7 @@ class Tracer:
     def occ_record(self):
         out = []
         for s in self.mediator._activator._internal_states:
-            if type(s).__name__ != "SingleActiveCellOccupancy":
+            if not any(c.__name__ == "SingleActiveCellOccupancy" for c in type(s).__mro__):
                 out.append(None)
                 continue
             occ = {",".join(map(str, c.identifier)): ids_of(v) for c, v in s._occupants.items() if v}
